@@ -1387,14 +1387,56 @@ bool ext_verify_subtree(const ctx_t& x, const dtree_wlearner_t& w, size_t p, con
     return true;
 }
 
-void ext_check_tree_fit(gen_t& g, const ctx_t& x, wlearner_criterion crit)
+// extension 3 (C10_TreeFit): the whole dataset (all rows, not only the selected ones: the children of a split are fitted on row
+// indices) for the extracted greedy fit -- printed once per case before the first TFIT line
+long ext_tfit_lines = 0, ext_tfit_nofit = 0, ext_tfit_deep = 0;
+void ext_dump_dataset(const ctx_t& x)
 {
-    const auto depth     = static_cast<int>(g.rng.range(2, 4));
-    const auto min_split = static_cast<int>(g.rng.range(1, 10));
+    static std::string dumped;
+    if (dumped == x.id) return;
+    dumped = x.id;
+    const auto& c    = *x.c;
+    const auto  rows = x.dataset1->samples();
+    std::printf("TD %s rows=%d no=%d nf=%d\n", x.id.c_str(), static_cast<int>(rows), c.outs, static_cast<int>(x.dfeat.size()));
+    for (size_t df = 0; df < x.dfeat.size(); ++df)
+    {
+        const auto& ft = c.feats[static_cast<size_t>(x.dfeat[df])];
+        if (ft.kind != k_scalar)
+        {
+            std::printf("TF %s %d X\n", x.id.c_str(), static_cast<int>(df));
+            continue;
+        }
+        std::vector<double> v;
+        for (tensor_size_t s = 0; s < rows; ++s) v.push_back(ft.present[static_cast<size_t>(s)] ? ft.sval[static_cast<size_t>(s)] : std::nan(""));
+        std::printf("TF %s %d S %s\n", x.id.c_str(), static_cast<int>(df), hexs(v.data(), rows).c_str());
+    }
+    std::string gs;
+    for (tensor_size_t s = 0; s < rows; ++s) gs += (s ? ";" : "") + hexs(x.grads.data() + s * c.outs, c.outs);
+    std::printf("TG %s %s\n", x.id.c_str(), gs.c_str());
+    std::string ss;
+    for (tensor_size_t i = 0; i < x.samples.size(); ++i) ss += (i ? "," : "") + std::to_string(x.samples(i));
+    std::printf("TS %s %s\n", x.id.c_str(), ss.c_str());
+}
+
+void ext_check_tree_fit(gen_t& g, const ctx_t& x, wlearner_criterion crit, int fdepth = 0, int fmin_split = 0)
+{
+    const auto depth     = fdepth > 0 ? fdepth : static_cast<int>(g.rng.range(2, 4));
+    const auto min_split = fmin_split > 0 ? fmin_split : static_cast<int>(g.rng.range(1, 10));
     auto       w         = make_learner("dtree", crit, depth, min_split);
     const auto score     = w->fit(*x.dataset1, x.samples, x.grads);
-    if (score == wlearner_t::no_fit_score()) return;
+    // the protocol line of the extracted greedy fit (one-thread pool: deterministic ties), also when the fit fails
+    ext_dump_dataset(x);
+    ext_tfit_lines++;
+    const auto ttag = x.id + " dtree-fit " + crit_name(crit) + " depth=" + std::to_string(depth) + " min_split=" + std::to_string(min_split);
+    if (score == wlearner_t::no_fit_score())
+    {
+        ext_tfit_nofit++;
+        std::printf("TFIT %s | nofit | -\n", ttag.c_str());
+        return;
+    }
+    std::printf("TFIT %s | %s | %s\n", ttag.c_str(), vh::hexf(score).c_str(), wstr(*w).c_str());
     const auto* tw = dynamic_cast<const dtree_wlearner_t*>(w.get());
+    if (tw->nodes().size() > 2U) ext_tfit_deep++;
     ext_treefit_checks++;
     const auto  tag      = x.id + " dtree-fit " + crit_name(crit);
     const auto  min_size = std::min<tensor_size_t>(10, x.dataset1->samples() * min_split / 100);
@@ -2028,6 +2070,12 @@ void run_case(uint64_t seed, long icase, bool thorough)
             }
         }
     }
+
+    // ---- extension 3: more greedy fits for the extracted model (kept last: the random stream of the clauses above is unchanged):
+    // a shallow tree with the largest minimum node size (terminal by size), a deep one without size limit, and the other criterion
+    ext_check_tree_fit(g, x, wlearner_criterion::rss, 2, static_cast<int>(g.rng.range(1, 10)));
+    ext_check_tree_fit(g, x, wlearner_criterion::rss, static_cast<int>(g.rng.range(3, 4)), 10);
+    if (g.coin(50)) ext_check_tree_fit(g, x, extra, static_cast<int>(g.rng.range(2, 3)), static_cast<int>(g.rng.range(1, 10)));
 }
 } // namespace
 
@@ -2093,10 +2141,10 @@ int main(int argc, char** argv)
     };
     std::printf("DONE cases=%ld fits=%ld nofits=%ld fails=%ld obs=%ld optimal_checks=%ld reproduce_checks=%ld consistency_checks=%ld "
                 "dstep_excluded=%ld scale_checks=%ld merges=%ld merged_pairs=%ld depth1_checks=%ld thread_checks=%ld missing_samples=%ld tie_columns=%ld "
-                "ext_topk=%ld ext_crit=%ld ext_ksplit=%ld ext_tree=%ld ext_treefit=%ld ext_topk_partial=%ld ext_sublist=%ld ext_sublist_lists=%ld learners=%s kinds=%s subsets=%s nhist=%s obs_kinds=%s\n",
+                "ext_topk=%ld ext_crit=%ld ext_ksplit=%ld ext_tree=%ld ext_treefit=%ld ext_topk_partial=%ld ext_sublist=%ld ext_sublist_lists=%ld ext_tfit=%ld ext_tfit_nofit=%ld ext_tfit_deep=%ld learners=%s kinds=%s subsets=%s nhist=%s obs_kinds=%s\n",
                 cnt.cases, cnt.fits, cnt.nofits, cnt.fails, cnt.obs, cnt.optimal_checks, cnt.reproduce_checks, cnt.consistency_checks,
                 cnt.dstep_excluded, cnt.scale_checks, cnt.merges, cnt.merged_pairs, cnt.depth1_checks, cnt.thread_checks, cnt.missing_samples, cnt.tie_cases,
-                ext_topk_checks, ext_crit_checks, ext_ksplit_checks, ext_tree_checks, ext_treefit_checks, ext_topk_partial, ext_sublist_checks, ext_sublist_lists,
+                ext_topk_checks, ext_crit_checks, ext_ksplit_checks, ext_tree_checks, ext_treefit_checks, ext_topk_partial, ext_sublist_checks, ext_sublist_lists, ext_tfit_lines, ext_tfit_nofit, ext_tfit_deep,
                 hist(cnt.learners).c_str(), hist(cnt.kinds).c_str(), hist(cnt.subsets).c_str(), hist(cnt.nhist).c_str(),
                 hist(cnt.obs_kinds).c_str());
     return 0;
